@@ -65,7 +65,7 @@ func (e *Executor) Run(ctx context.Context, calls ...*Call) error {
 		for i, c := range calls {
 			compiledTask, err := e.FastCompiledTask(c)
 			if err != nil {
-				return nil
+				return err
 			}
 			summary.PrintSpaceBetweenSummaries(e.Logger, i)
 			summary.PrintTask(e.Logger, compiledTask)
